@@ -410,6 +410,7 @@ func (store *KeyStore) WriteKeyFile(filename string, data []byte, mode os.FileMo
 	if err != nil {
 		return err
 	}
+	store.invalidateHistoricalPrivateKeyFilenames(filename)
 	return nil
 }
 
@@ -451,7 +452,8 @@ var errCacheMissHistoricalFilenames = errors.New("cache doesn't contain historic
 func (store *KeyStore) getCachedHistoricalPrivateKeyFilenames(id string) ([]string, error) {
 	key := cacheKeyPrefix + id
 	value, ok := store.cache.Get(key)
-	if !ok {
+	// nil value means that the list was invalidated
+	if !ok || value == nil {
 		return nil, errCacheMissHistoricalFilenames
 	}
 	paths := &fs.HistoricalPaths{}
@@ -471,6 +473,12 @@ func (store *KeyStore) cacheHistoricalPrivateKeyFilenames(id string, paths []str
 	key := cacheKeyPrefix + id
 	store.cache.Add(key, serialized)
 	return nil
+}
+
+// invalidateHistoricalPrivateKeyFilenames drops cached list of historical filenames of the key file with given path.
+// It has to be called whenever the key file or its history changes: rotation, destruction.
+func (store *KeyStore) invalidateHistoricalPrivateKeyFilenames(path string) {
+	store.cache.Add(cacheKeyPrefix+filepath.Clean(path), nil)
 }
 
 // GetHistoricalPrivateKeyFilenames return filenames for current and rotated keys
@@ -1003,6 +1011,7 @@ func (store *KeyStore) destroyKeyWithFilename(filename string) error {
 	// Purge private key data from cache too.
 	store.cache.Add(filename, nil)
 	store.cache.Add(filename+".pub", nil)
+	store.invalidateHistoricalPrivateKeyFilenames(store.GetPrivateKeyFilePath(filename))
 
 	// Remove key files. It's okay if they are already removed (or never existed).
 	// Keystore v1 does not differentiate between 'destroying' and 'removing' keys
@@ -1023,6 +1032,7 @@ func (store *KeyStore) destroyKeyWithFilename(filename string) error {
 func (store *KeyStore) destroySymmetricKeyWithFilename(filename string) error {
 	// Purge key data from cache too.
 	store.cache.Add(getSymmetricKeyName(filename), nil)
+	store.invalidateHistoricalPrivateKeyFilenames(store.GetPrivateKeyFilePath(getSymmetricKeyName(filename)))
 
 	// Remove key files. It's okay if they are already removed (or never existed).
 	// Keystore v1 does not differentiate between 'destroying' and 'removing' keys
@@ -1339,6 +1349,7 @@ func (store *KeyStore) destroyRotatedKeyByIndex(path string, index int) error {
 	if err != nil && !os.IsNotExist(err) {
 		return err
 	}
+	store.invalidateHistoricalPrivateKeyFilenames(path)
 
 	return nil
 }
